@@ -25,9 +25,9 @@ from ..mutate import mutate, remove_stmts, replace_expr, replace_stmt, parse_stm
 from ..model import AnalysisError
 from .. import x_sre
 from ..x_emit import emissions, PH
-from ..x_valuewalk import iter_order, always_raises, noreturn_cfg, walk, value_oracle, single_assignment, dict_literal, const_collection
+from ..x_valuewalk import branch_flag, iter_order, always_raises, noreturn_cfg, walk, value_oracle, single_assignment, dict_literal, const_collection
 
-TECHNIQUE = "per-operator constant-folded walk of the directive dispatch on the CFG + exception-class closure + emitted-line event ordering + regex-AST class check"
+TECHNIQUE = "per-operator constant-folded walk of the directive dispatch on the CFG + exception-class closure + emitted-line event ordering + regex-AST class check + exhaustive evaluation of the extracted whitespace-substitution pipeline over all whitespace runs up to length 4 (class representatives; regex semantics = stdlib re, tornado is not executed)"
 EXPLANATION = (
     "tornado/template.py: (1) call closure from _parse: every raise statement constructs ParseError, foreign raises only behind a handler/guard; "
     "raise_parse_error passes reader.name/reader.line and never returns; consume() counts newlines before moving pos. "
@@ -37,12 +37,15 @@ EXPLANATION = (
     "guards of end/EOF/else/break are must-facts. (3) generate() methods: emitted lines folded to templates and parsed as Python; "
     "header/indent/pass/prologue/epilogue ordering by dominance and post-dominance; single append alias. "
     "(4) ancestors order, named-block override lookup, each_child coverage, include load arguments. "
-    "(5) filter_whitespace: patterns parsed with re._parser, every consuming atom matches whitespace only, replacement is one whitespace char, mode 'all' returns its argument."
+    "(5) filter_whitespace: patterns parsed with re._parser, every consuming atom matches whitespace only, replacement is one whitespace char, mode 'all' returns its argument; "
+    "because the patterns are anchor-free and whitespace-only the filter acts on each whitespace run independently, so the per-mode substitution pipeline (extracted constants) is "
+    "evaluated on every run of <= 4 characters over 8 class representatives and compared with the documented result of the mode.  "
+    "(6) scanner: opener set vs. per-opener closer search (mirror image), missing closer -> error, body consumed up to the closer, closer skipped by its length, '!' escape branch."
 )
 NOT_DECIDED = (
     "that the generated program computes what the template language defines for every template (compiler correctness), "
-    "scanner details (escapes '{{!', runs of braces, comment/expression delimiters), correctness of the line number beyond "
-    "'reader.line at the point of the error', the '<pre>' heuristic, loader path resolution"
+    "the scan loop's choice among runs of braces, correctness of the line number beyond 'reader.line at the point of the error', "
+    "whitespace runs longer than 4 characters (bounded evaluation), whether '<pre>' is a good heuristic, loader path resolution"
 )
 LEVEL_NOTE = "Decides only the structural clauses listed; NOT decided: " + NOT_DECIDED + ". Trusted base: Python's grammar for compound statements (clause table, loop keywords), re/str semantics"
 
@@ -675,6 +678,32 @@ def rule_text_fidelity(ck, px):
                     v = st.value
                     good = q.dotted(v) == "self.value" or (isinstance(v, ast.Call) and q.call_attr(v) == "filter_whitespace" and len(v.args) == 2 and q.dotted(v.args[0]) == "self.whitespace" and q.dotted(v.args[1]) in (var, "self.value"))
                     ck.ob(rid, tg, st, bool(good), "the emitted text is self.value, changed only by filter_whitespace(self.whitespace, .)")
+    # the filter runs unless the text is preformatted; only empty text is suppressed
+    for e in ems:
+        if not (len(e.exprs) == 1 and isinstance(e.exprs[0], ast.Call) and e.exprs[0].args and isinstance(e.exprs[0].args[0], ast.Name)):
+            continue
+        var = e.exprs[0].args[0].id
+        fcalls = {n_.id for n_ in tg.cfg.stmt_nodes(lambda n_: n_.kind == "stmt" and isinstance(n_.ast, ast.Assign) and var in q.assigned_paths(n_.ast) and isinstance(n_.ast.value, ast.Call) and q.call_attr(n_.ast.value) == "filter_whitespace")}
+        pre_t = "'<pre>' in %s" % var
+
+        def tr(n_, val):
+            return True if n_.id in fcalls else val
+
+        def ed(n_, kind, val):
+            return val
+
+        seen = explore(tg.cfg, False, tr, lambda t: t == pre_t, follow_exc=False)
+        for en in tg.cfg.nodes_for(e.call):
+            for facts_, filtered in sorted(seen.get(en.id, ()), key=repr):
+                ck.ob(rid, tg, e.call, filtered or (pre_t, True) in facts_, "text is emitted filtered, except text containing '<pre>' (filtered=%s, pre-known=%s)" % (filtered, (pre_t, True) in facts_), construct="emit filtered=%s pre=%s" % (filtered, (pre_t, True) in facts_))
+        pm_ = q.parent_map(tg.node)
+        for a_ in q.ancestors(pm_, e.call):
+            if isinstance(a_, ast.If) and any(e.call is x for st_ in a_.body for x in ast.walk(st_)):
+                t_ = a_.test
+                okt = q.dotted(t_) == var or q.unparse(t_) in ("len(%s) > 0" % var, "%s != ''" % var, "len(%s)" % var)
+                if not okt and not any(isinstance(x, ast.Call) for x in ast.walk(t_)):
+                    raise AnalysisError("_Text.generate: emission guard not understood: %s" % q.unparse(t_))
+                ck.ob(rid, tg, a_.test, okt, "only empty text is suppressed (whitespace-only text is still output)")
     tinit_st = [s for s in q.stores_to(tinit.node, "self.whitespace")]
     ck.ob(rid, tinit, tinit.node, len(tinit_st) == 1 and q.dotted(tinit_st[0].value) == ws_param[0], "_Text stores the mode it was constructed with", construct="self.whitespace = %s" % ws_param[0])
 
@@ -711,24 +740,245 @@ def rule_text_fidelity(ck, px):
             rep = c.args[1]
             ck.ob(rid, fw, c, isinstance(rep, ast.Constant) and isinstance(rep.value, str) and len(rep.value) == 1 and rep.value.isspace(), "mode %r: a whitespace run is replaced by a single whitespace character" % v, construct="mode=%s replacement %s" % (v, q.unparse(rep)))
             ck.ob(rid, fw, c, q.dotted(c.args[2]) == text and len(c.args) == 3 and not q.kwarg(c, "count"), "mode %r: the substitution runs over the whole text" % v, construct="mode=%s subject %s" % (v, q.unparse(c.args[2])))
-        if v == "oneline":
-            pass
-    # newline handling promised by the documentation of the modes: 'single' keeps newlines, 'oneline' removes them
-    for v, keeps in (("single", True), ("oneline", False)):
-        if v not in acc:
+    rule_ws_runs(ck, fw, mode, text, acc)
+
+
+WS_ALPHABET = [" ", "\t", "\n", "\r", "\f", "\v", "\x85", "\xa0"]  # representatives of every class the \s / blank / newline atoms distinguish
+WS_MAXLEN = 4
+
+
+def _sub_op(ck, fw, call, text):
+    """(pattern, flags, replacement) when ``call`` is re.sub(<const>, <const>, text) or <module regex>.sub(<const>, text)."""
+    m = fw.module
+    if q.is_call(call, "re.sub") and len(call.args) == 3 and q.dotted(call.args[2]) == text and not q.kwarg(call, "count"):
+        pat = x_sre.pattern_constant(call.args[0])
+        flags = x_sre.flag_value(q.kwarg(call, "flags"))
+        rep = call.args[1]
+    elif isinstance(call.func, ast.Attribute) and call.func.attr == "sub" and isinstance(call.func.value, ast.Name) and call.func.value.id in m.assigns and len(call.args) == 2 and q.dotted(call.args[1]) == text:
+        rc = m.assigns[call.func.value.id]
+        if not (q.is_call(rc, "re.compile") and rc.args):
+            return None
+        pat = x_sre.pattern_constant(rc.args[0])
+        flags = x_sre.flag_value(q.kwarg(rc, "flags") or (rc.args[1] if len(rc.args) > 1 else None))
+        rep = call.args[0]
+    else:
+        return None
+    if not (isinstance(rep, ast.Constant) and isinstance(rep.value, str)) or "\\" in rep.value:
+        return None
+    return pat, flags, rep.value
+
+
+def ws_pipeline(ck, fw, mode, text, v):
+    """The straight-line sequence of substitutions that filter_whitespace applies to its text for mode ``v``
+    (tests on the mode folded).  Anything else that touches the text is an unknown idiom."""
+    cfg = fw.cfg
+    decide = value_oracle(fw.node, mode, v)
+    ops = []
+    n = cfg.entry
+    steps = 0
+    while True:
+        steps += 1
+        if steps > 200:
+            raise AnalysisError("filter_whitespace(%r): path does not terminate" % v)
+        if n.kind == "exit":
+            raise AnalysisError("filter_whitespace(%r) falls off the end" % v)
+        nxt = [(cfg.nodes[i], k) for i, k in cfg.succ[n.id] if k != "exc"]
+        if n.kind == "test":
+            d = decide(n)
+            if d is None:
+                raise AnalysisError("filter_whitespace(%r): test %s is not decided by the mode" % (v, q.unparse(n.ast)))
+            nxt = [(x, k) for x, k in nxt if k == ("true" if d else "false")]
+        elif n.kind == "stmt":
+            st = n.ast
+            if isinstance(st, ast.Return):
+                e = st.value
+                if q.dotted(e) == text:
+                    return ops
+                op = _sub_op(ck, fw, e, text) if isinstance(e, ast.Call) else None
+                if op is None:
+                    raise AnalysisError("filter_whitespace(%r): returned expression not understood: %s" % (v, q.unparse(e)))
+                return ops + [op]
+            if isinstance(st, ast.Raise):
+                return None
+            if text in q.assigned_paths(st) or text in q.names_in(st):
+                op = _sub_op(ck, fw, st.value, text) if isinstance(st, ast.Assign) and isinstance(st.value, ast.Call) and q.assigned_paths(st) == {text} else None
+                if op is None:
+                    raise AnalysisError("filter_whitespace(%r): statement on the text not understood: %s" % (v, q.unparse(st)))
+                ops.append(op)
+        if len(nxt) != 1:
+            raise AnalysisError("filter_whitespace(%r): control flow not straight-line at %r" % (v, n))
+        n = nxt[0][0]
+
+
+def rule_ws_runs(ck, fw, mode, text, acc):
+    """Because every pattern matches whitespace only and has no anchors/look-around, the filter acts on each
+    maximal whitespace run independently of its surroundings; its behaviour is therefore decided by its action
+    on whitespace runs.  The extracted substitution pipeline is evaluated (regex semantics: stdlib ``re``; the
+    analysed code is not executed) on *every* run of up to WS_MAXLEN characters over class representatives and
+    compared with what the documented modes define."""
+    import itertools
+    import re as _re
+
+    rid = "C19.ws-runs"
+    runs = ["".join(t) for k in range(1, WS_MAXLEN + 1) for t in itertools.product(WS_ALPHABET, repeat=k)]
+    for v in sorted(acc):
+        try:
+            ops = ws_pipeline(ck, fw, mode, text, v)
+        except AnalysisError as e:
+            if any(x.rule == "C19.text-fidelity" and x.func == fw.qualname for x in ck.violations):
+                ck.note("mode %r not evaluated on runs (%s); the structural rule already reports this function" % (v, e))
+                continue
+            raise
+        if ops is None:
             continue
-        r = walk(fw.cfg, [(fw.cfg.entry.id, 0)], lambda n, val: val, decide=value_oracle(fw.node, mode, v))
-        subs = [c for nid in sorted(r) if fw.cfg.nodes[nid].kind == "stmt" for c in q.calls(fw.cfg.nodes[nid].ast) if q.is_call(c, "re.sub")]
-        removes_nl = False
-        for c in subs:
-            tree = x_sre.parse(x_sre.pattern_constant(c.args[0]))
-            can_nl = any(x_sre.atom_matches(op, av, "\n") for op, av in x_sre.atoms(tree))
-            rep = c.args[1].value if isinstance(c.args[1], ast.Constant) else None
-            if can_nl and rep != "\n":
-                # a pattern that can consume a newline and does not put one back
-                must_nl = x_sre.finite_strings([x for x in tree]) is not None
-                removes_nl = True
-        ck.ob(rid, fw, fw.node, removes_nl != keeps, "mode %r %s newlines" % (v, "preserves" if keeps else "removes"), construct="mode=%s newline %s" % (v, "kept" if not removes_nl else "removed"))
+        for pat, flags, rep in ops:
+            tree = x_sre.parse(pat, flags)
+            zero_width = [op for op, av in _all_items(tree) if op in (x_sre._OP["AT"], x_sre._OP["ASSERT"], x_sre._OP["ASSERT_NOT"], x_sre._OP["GROUPREF"])]
+            if zero_width:
+                raise AnalysisError("filter_whitespace(%r): pattern %r uses anchors/look-around; run-independence does not hold" % (v, pat))
+        comp = [(_re.compile(pat, flags), rep) for pat, flags, rep in ops]
+
+        def apply(w):
+            # the run embedded between non-whitespace characters
+            s = "x" + w + "x"
+            for rx_, rep in comp:
+                s = rx_.sub(rep, s)
+            return s[1:-1] if s.startswith("x") and s.endswith("x") else None
+
+        bad = {}
+        for w in runs:
+            out = apply(w)
+            why = None
+            if out is None:
+                why = "touches the neighbouring text"
+            elif v == "all":
+                if out != w:
+                    why = "is changed"
+            elif v == "oneline":
+                if out != " ":
+                    why = "does not become one space"
+            elif v == "single":
+                if "\n" in w:
+                    if out != "\n":
+                        why = "contains a newline but does not become exactly one newline"
+                else:
+                    if not out or "\n" in out or len(out) > len(w) or any(a in " \t" and b in " \t" for a, b in zip(out, out[1:])) or any(not ch.isspace() for ch in out):
+                        why = "without newline: must stay non-empty whitespace without adjacent blanks and without a newline"
+            else:
+                continue
+            if why and why not in bad:
+                bad[why] = (w, out)
+        if v not in ("all", "oneline", "single"):
+            ck.note("whitespace mode %r has no documented reference semantics; only the whitespace-only rule applies" % v)
+            continue
+        ck.ob(rid, fw, fw.node, not bad, "mode %r over all %d whitespace runs of length <= %d: %s" % (v, len(runs), WS_MAXLEN, "every run is filtered as documented" if not bad else "; ".join("run %r -> %r %s" % (w, o, y) for y, (w, o) in bad.items())),
+              construct="mode=%s runs" % v)
+
+
+def _all_items(seq):
+    for op, av in seq:
+        yield op, av
+        ch = x_sre.children(op, av) if op not in (x_sre._OP["GROUPREF"],) else []
+        for sub in ch or []:
+            yield from _all_items(sub)
+
+
+# --------------------------------------------------------------------------------------------
+# R14 scanner: delimiters, escapes, what text is consumed
+
+
+def rule_scanner(ck, px):
+    rid = "C19.scanner"
+    fi, cfg, rd = px.fi, px.cfg, px.reader
+    # the opener: two characters consumed after the literal text
+    sb = None
+    for n in cfg.stmt_nodes(lambda n: n.kind == "stmt" and isinstance(n.ast, ast.Assign)):
+        v = n.ast.value
+        if q.is_call(v, rd + ".consume") and len(v.args) == 1 and q.is_const(v.args[0], 2) and isinstance(n.ast.targets[0], ast.Name):
+            sb = (n.ast.targets[0].id, n)
+    if sb is None:
+        raise AnalysisError("_parse: two-character opener (reader.consume(2)) not found")
+    sbv, sbn = sb
+    # opener second characters admitted by the scan loop
+    second = None
+    for t in cfg.stmt_nodes(lambda n: n.kind == "test"):
+        e = t.ast
+        if isinstance(e, ast.Compare) and len(e.ops) == 1 and isinstance(e.ops[0], (ast.In, ast.NotIn)) and isinstance(e.left, ast.Subscript) and q.dotted(e.left.value) == rd and not cfg.dominates(sbn, t):
+            coll = const_collection(e.comparators[0])
+            if coll is not None and all(isinstance(c, str) and len(c) == 1 for c in coll):
+                second = coll
+    if second is None:
+        raise AnalysisError("_parse: the set of characters that may follow '{' was not found")
+    openers = {"{" + c for c in second}
+    # per opener: the closer searched for is the mirror image, a missing closer is an error, exactly the
+    # closer is skipped
+    handled = {}
+    for t in cfg.stmt_nodes(lambda n: n.kind == "test"):
+        e = t.ast
+        if isinstance(e, ast.Compare) and len(e.ops) == 1 and isinstance(e.ops[0], ast.Eq) and q.dotted(e.left) == sbv and isinstance(e.comparators[0], ast.Constant):
+            handled[e.comparators[0].value] = (e, True)
+    asserts = [n.ast for n in cfg.stmt_nodes(lambda n: n.kind == "stmt" and isinstance(n.ast, ast.Assert)) if isinstance(n.ast.test, ast.Compare) and q.dotted(n.ast.test.left) == sbv and isinstance(n.ast.test.comparators[0], ast.Constant)]
+    finds = [(n, c) for n, c in cfg.find(lambda x: q.is_call(x, rd + ".find") and len(x.args) == 1 and isinstance(x.args[0], ast.Constant) and isinstance(x.args[0].value, str) and x.args[0].value.endswith("}") and len(x.args[0].value) == 2)]
+    ck.floor(rid, len(finds), 3, "closing-delimiter searches")
+    seen_open = set()
+    for n, c in finds:
+        closer = c.args[0].value
+        # which opener is this branch for?
+        ops = [o for o, (e, _) in handled.items() if branch_flag(cfg, q.unparse(e), True, [sbv]).get(n.id, False)]
+        if not ops:
+            rest = openers - set(handled)
+            neg = all(branch_flag(cfg, q.unparse(e), False, [sbv]).get(n.id, False) for o, (e, _) in handled.items())
+            ops = sorted(rest) if neg and len(rest) == 1 else []
+        if len(ops) != 1:
+            raise AnalysisError("_parse: cannot tell for which opener %r is searched" % closer)
+        op = ops[0]
+        seen_open.add(op)
+        mirror = {"{": "}", "(": ")", "[": "]", "<": ">"}.get(op[1], op[1]) + "}"
+        ck.ob(rid, fi, c, closer == mirror, "a tag opened with %r is closed by its mirror image %r (searched: %r)" % (op, mirror, closer), construct="opener %s closer %s" % (op, closer))
+        endv = None
+        if isinstance(n.ast, ast.Assign) and isinstance(n.ast.targets[0], ast.Name):
+            endv = n.ast.targets[0].id
+        if endv is None:
+            raise AnalysisError("_parse: result of the closer search is not bound to a name")
+        # missing closer -> error; content consumed up to the closer; closer skipped with its own length
+        after = [x for x in cfg.stmt_nodes(lambda x: x.kind == "stmt") if cfg.dominates(n, x)]
+        found = branch_flag(cfg, "%s == -1" % endv, False, [endv])
+        cons_content = [x for x in after if isinstance(x.ast, (ast.Assign, ast.Expr)) and any(q.is_call(cc, rd + ".consume") and len(cc.args) == 1 and q.dotted(cc.args[0]) == endv for cc in q.calls(x.ast))]
+        mine = [x for x in cons_content if not any(cfg.dominates(n2, x) and n2.id != n.id and cfg.dominates(n, n2) for n2, _ in finds)]
+        ck.ob(rid, fi, c, len(mine) == 1 and found.get(mine[0].id, False), "the tag body is consumed exactly up to the closer, and only when a closer was found (no closer is a parse error)", construct="opener %s body" % op)
+        if mine:
+            skip = [x for x in after if cfg.dominates(mine[0], x) and x.id != mine[0].id and isinstance(x.ast, ast.Expr) and q.is_call(x.ast.value, rd + ".consume")]
+            skip = [x for x in skip if not any(cfg.dominates(o, x) and o.id != mine[0].id for o in cons_content if o.id != mine[0].id)]
+            okk = bool(skip) and len(skip[0].ast.value.args) == 1 and q.is_const(skip[0].ast.value.args[0], len(closer))
+            ck.ob(rid, fi, skip[0].ast if skip else c, okk, "after the body exactly the %d characters of the closer are skipped" % len(closer), construct="opener %s skip closer" % op)
+    ck.ob(rid, fi, fi.node, seen_open == openers, "every opener the scan loop stops at (%s) has a branch that looks for its closer (handled: %s)" % (sorted(openers), sorted(seen_open)), construct="openers %s handled %s" % (sorted(openers), sorted(seen_open)))
+    # escape "{{!" "{%!" "{#!": emit the two opener characters, drop the '!', parse nothing
+    esc_tests = [t for t in cfg.stmt_nodes(lambda n: n.kind == "test") if isinstance(t.ast, ast.Compare) and len(t.ast.ops) == 1 and isinstance(t.ast.ops[0], ast.Eq) and q.is_const(t.ast.comparators[0], "!") and isinstance(t.ast.left, ast.Subscript) and q.dotted(t.ast.left.value) == rd]
+    ck.ob(rid, fi, fi.node, len(esc_tests) == 1 and q.is_const(esc_tests[0].ast.left.slice, 0) and cfg.dominates(sbn, esc_tests[0]), "the character right after the opener is tested for the escape mark '!'", construct="escape test")
+    if len(esc_tests) == 1:
+        et = esc_tests[0]
+        inesc = branch_flag(cfg, q.unparse(et.ast), True, [])
+        nodes = [x for x in cfg.stmt_nodes(lambda x: x.kind == "stmt") if inesc.get(x.id, False) and cfg.dominates(et, x) and not px.in_dispatch(x)]
+        # restrict to the escape branch proper: up to its `continue`
+        branch = []
+        for x in sorted(nodes, key=lambda x: x.id):
+            branch.append(x)
+            if isinstance(x.ast, ast.Continue):
+                break
+        drops = [x for x in branch if isinstance(x.ast, ast.Expr) and q.is_call(x.ast.value, rd + ".consume") and len(x.ast.value.args) == 1 and q.is_const(x.ast.value.args[0], 1)]
+        other_cons = [x for x in branch if x not in drops and any(q.is_call(cc, rd + ".consume") for cc in q.calls(x.ast))]
+        ck.ob(rid, fi, et.ast, len(drops) == 1 and not other_cons, "an escaped opener consumes exactly the one '!' character and nothing else", construct="escape consumes")
+        texts = [cc for x in branch for cc in q.calls(x.ast) if q.is_call(cc, "_Text")]
+        ck.ob(rid, fi, et.ast, len(texts) == 1 and texts[0].args and q.dotted(texts[0].args[0]) == sbv, "an escaped opener is emitted as its two literal characters", construct="escape emits opener")
+        ck.ob(rid, fi, et.ast, bool(branch) and isinstance(branch[-1].ast, ast.Continue), "and scanning resumes after it (the tag is not parsed)", construct="escape continues")
+    # literal text: what is emitted as text is what the reader consumed (no trimming)
+    for c in [c for c in q.calls(fi.node) if q.is_call(c, "_Text")]:
+        a = c.args[0] if c.args else None
+        src = a
+        if isinstance(a, ast.Name):
+            src = single_assignment(fi.node, a.id) or a
+        ok = q.is_call(src, rd + ".consume") or q.dotted(src) == sbv
+        ck.ob(rid, fi, c, bool(ok), "literal text nodes carry exactly what reader.consume() returned")
 
 
 # --------------------------------------------------------------------------------------------
@@ -1073,6 +1323,8 @@ def run(ck):
     ck.rule("C19.recursion-scope", "recursive _parse calls pass the opening operator as enclosing block; loop marker: set for Python loops, cleared for operators that generate a nested function, passed through otherwise")
     ck.rule("C19.statement-text", "operators that are Python keywords are emitted with their keyword (whole directive text); all other operators pass only their operand")
     ck.rule("C19.text-fidelity", "literal text carries the whitespace mode in force where it was read; _Text emits repr(utf8(filtered value)); filter_whitespace patterns match whitespace only, replace by one whitespace character, 'all' is the identity, 'single' keeps and 'oneline' removes newlines")
+    ck.rule("C19.ws-runs", "the substitution pipeline of each whitespace mode, evaluated on every whitespace run up to length 4 over class representatives, does what the mode documents: all = identity; oneline = one space; single = exactly one newline for a run containing a newline, otherwise non-empty whitespace without adjacent blanks")
+    ck.rule("C19.scanner", "tags: each opener the scan loop stops at has a branch searching its mirror-image closer, a missing closer is an error, the body is consumed up to the closer and exactly the closer is skipped; an escaped opener ('!' after it) emits the two opener characters, drops the '!' and is not parsed; text nodes carry what consume() returned")
     ck.rule("C19.gen-structure", "emitted block structure: header before an indented suite, pass for empty suites, clause headers one level out after pass, generated functions open with a fresh buffer + append alias and end returning the joined buffer, one alias for all emitters, write_line indents with the current level")
     ck.rule("C19.indent-balanced", "_CodeWriter.indent(): __enter__ adds one level, __exit__ removes one level, nothing else writes _indent")
     ck.rule("C19.inherit", "ancestors are derived-first, named blocks collected base-first, base-most file generated; a block renders the registered override; each_child covers stored children; include loads (name, including template) in both phases")
@@ -1087,6 +1339,7 @@ def run(ck):
     rule_recursion_scope(ck, px)
     rule_statement_text(ck, px)
     rule_text_fidelity(ck, px)
+    rule_scanner(ck, px)
     rule_gen_structure(ck, px)
     rule_indent_balanced(ck, px)
     rule_inherit(ck, px)
@@ -1180,6 +1433,10 @@ def _drop_method(name):
 MUTANTS = [
     ("empty expression raises a plain Exception", _in("_parse", replace_stmt(lambda st: _is_rpe_stmt(st, "Empty expression"), lambda st: [parse_stmt("raise Exception('Empty expression')")])), ("C19.raise-class", "C19.error-line")),
     ("missing loader reported with ValueError", _in("Template._get_ancestors", replace_expr(lambda n: isinstance(n, ast.Name) and n.id == "ParseError", lambda n: ast.Name(id="ValueError", ctx=ast.Load()))), "C19.raise-class"),
+    ("F15 repair undone: whitespace mode validated outside any handler", _in("_parse", replace_stmt(lambda st: isinstance(st, ast.Try) and "filter_whitespace" in _u(st), lambda st: st.body)), "C19.raise-class"),
+    ("F15 handler re-raises the foreign exception", _in("_parse", replace_stmt(lambda st: isinstance(st, ast.Expr) and "raise_parse_error(str(e))" in _u(st), lambda st: [parse_stmt("raise")])), "C19.raise-class"),
+    ("seeded C19-adv1: 'single' newline pattern swallows only one space before the newline", _in("filter_whitespace", replace_expr(lambda n: q.is_const(n, "(\\s*\\n\\s*)"), lambda n: ast.Constant(value=" ?\\n\\s*"))), "C19.ws-runs"),
+    ("'oneline' collapses blanks only (newlines survive)", _in("filter_whitespace", replace_expr(lambda n: q.is_const(n, "(\\s+)"), lambda n: ast.Constant(value="([ \\t]+)"))), "C19.ws-runs"),
     ("operator added to the dispatch tuple without a branch", _in("_parse", _add_operator), "C19.block-bound"),
     ("unknown operators are skipped silently", _in("_parse", replace_stmt(lambda st: _is_rpe_stmt(st, "unknown operator"), lambda st: [ast.Continue()])), "C19.unknown-operator"),
     ("error line is off by one", _in("_TemplateReader.raise_parse_error", replace_expr(lambda n: _u(n) == "self.line", lambda n: parse_expr("self.line - 1"))), "C19.error-line"),
@@ -1199,9 +1456,16 @@ MUTANTS = [
     ("whitespace directive does not change the reader mode", _in("_parse", remove_stmts(lambda st: isinstance(st, ast.Assign) and _u(st.targets[0]) == "reader.whitespace")), "C19.text-fidelity"),
     ("text before a directive gets the template default mode", _in("_parse", replace_expr(lambda n: isinstance(n, ast.Call) and _u(n).startswith("_Text(cons"), lambda n: parse_expr("_Text(cons, reader.line, 'all')"))), "C19.text-fidelity"),
     ("literal text emitted with %s inside quotes", _in("_Text.generate", replace_expr(lambda n: isinstance(n, ast.BinOp) and isinstance(n.op, ast.Mod), lambda n: parse_expr("'_tt_append(b\"%s\")' % value"))), "C19.text-fidelity"),
-    ("'single' turns newline runs into a space", _in("filter_whitespace", replace_expr(lambda n: q.is_const(n, "\n"), lambda n: ast.Constant(value=" "))), "C19.text-fidelity"),
+    ("'single' turns newline runs into a space", _in("filter_whitespace", replace_expr(lambda n: q.is_const(n, "\n"), lambda n: ast.Constant(value=" "))), "C19.ws-runs"),
     ("'oneline' also eats the character after the run", _in("filter_whitespace", replace_expr(lambda n: q.is_const(n, "(\\s+)"), lambda n: ast.Constant(value="(\\s+.?)"))), "C19.text-fidelity"),
     ("mode 'all' strips the text", _in("filter_whitespace", replace_stmt(lambda st: isinstance(st, ast.Return) and _u(st) == "return text", lambda st: [parse_stmt("return text.strip()")])), "C19.text-fidelity"),
+    ("escaped opener keeps the '!'", _in("_parse", remove_stmts(lambda st: isinstance(st, ast.Expr) and _u(st) == "reader.consume(1)")), "C19.scanner"),
+    ("escaped opener emits only the first brace", _in("_parse", replace_expr(lambda n: isinstance(n, ast.Call) and _u(n).startswith("_Text(start_brace"), lambda n: parse_expr("_Text(start_brace[0], line, reader.whitespace)"))), "C19.scanner"),
+    ("comment closer skipped with one character", _in("_parse", lambda fn: (lambda ifs: (replace_expr(lambda n: isinstance(n, ast.Call) and _u(n) == "reader.consume(2)", lambda n: parse_expr("reader.consume(1)"))(ifs[0]) if ifs else False))([n for n in ast.walk(fn) if isinstance(n, ast.If) and _u(n.test) == "start_brace == '{#'"])), "C19.scanner"),
+    ("unterminated expression is not an error", _in("_parse", remove_stmts(_if_guarding("Missing end expression"))), "C19.scanner"),
+    ("text before a tag loses trailing blanks", _in("_parse", replace_expr(lambda n: isinstance(n, ast.Call) and _u(n) == "reader.consume(curly)", lambda n: parse_expr("reader.consume(curly).rstrip(' ')"))), "C19.scanner"),
+    ("<pre> test inverted: ordinary text is never filtered", _in("_Text.generate", replace_expr(lambda n: isinstance(n, ast.Compare) and isinstance(n.ops[0], ast.NotIn) and "<pre>" in _u(n), lambda n: ast.Compare(left=n.left, ops=[ast.In()], comparators=n.comparators))), "C19.text-fidelity"),
+    ("whitespace-only text is dropped", _in("_Text.generate", replace_expr(lambda n: isinstance(n, ast.Name) and n.id == "value" and isinstance(n.ctx, ast.Load) and False, lambda n: n) if False else replace_stmt(lambda st: isinstance(st, ast.If) and _u(st.test) == "value", lambda st: [ast.If(test=parse_expr("value.strip()"), body=st.body, orelse=[])])), "C19.text-fidelity"),
     ("control block without the trailing pass", _in("_ControlBlock.generate", remove_stmts(lambda st: "'pass'" in _u(st) and isinstance(st, ast.Expr))), "C19.gen-structure"),
     ("intermediate clause at the body's indentation", _in("_IntermediateControlBlock.generate", replace_expr(lambda n: _u(n) == "writer.indent_size() - 1", lambda n: parse_expr("writer.indent_size()"))), "C19.gen-structure"),
     ("intermediate clause without the preceding pass", _in("_IntermediateControlBlock.generate", remove_stmts(lambda st: isinstance(st, ast.Expr) and "'pass'" in _u(st))), "C19.gen-structure"),
